@@ -103,6 +103,17 @@ template <class M> struct Runner {
     print_state(o, cm.right);
     return o.str();
   }
+  std::string subsume(const std::vector<lm::WordIndex> &a, const std::vector<lm::WordIndex> &b) {
+    std::vector<lm::WordIndex> all(a); all.insert(all.end(), b.begin(), b.end());
+    ChartState cf, ca, cb;
+    float pf = fragment(all, cf), pa = fragment(a, ca), pb = fragment(b, cb);
+    float adj = Subsume(m, ca.left, ca.right, cb.left, cb.right, 0);
+    std::ostringstream o;
+    o << std::hex << bits(adj) << ' ' << bits(pf) << ' ' << bits(pa) << ' ' << bits(pb) << ' '
+      << std::dec << (unsigned)ca.left.length << ' ' << (ca.left.full ? 1 : 0) << ' ';
+    print_state(o, cb.right);
+    return o.str();
+  }
   std::string score(bool bos, const std::vector<unsigned> &ids) {
     std::ostringstream o;
     State st = bos ? m.BeginSentenceState() : m.NullContextState();
@@ -180,6 +191,11 @@ template <class M> int run(const char *file, const std::vector<std::string> &voc
         while (in >> x) { if (x == ";") parts.push_back(std::vector<lm::WordIndex>()); else parts.back().push_back(r.to_model.at(strtoul(x.c_str(), NULL, 16))); }
         if (parts.size() != 3) { std::cout << "?\n"; continue; }
         std::cout << r.partial(parts[0], parts[1], parts[2]) << '\n';
+      } else if (cmd == "SUB") {
+        std::vector<std::vector<lm::WordIndex> > parts(1); std::string x;
+        while (in >> x) { if (x == ";") parts.push_back(std::vector<lm::WordIndex>()); else parts.back().push_back(r.to_model.at(strtoul(x.c_str(), NULL, 16))); }
+        if (parts.size() != 2) { std::cout << "?\n"; continue; }
+        std::cout << r.subsume(parts[0], parts[1]) << '\n';
       } else if (cmd == "K") {
         // State comparison operators on raw states (words are arbitrary uint32, hex)
         State a, b; a.length = 0; b.length = 0; State *cur = &a; std::string x;
